@@ -10,7 +10,7 @@
 struct Harness { const char *name; std::vector<int> ops; };  // one operation (det::run_op index) per thread
 static std::vector<Harness> harnesses() {
   return {{"compile(S1) || compile(S1)", {0, 0}}, {"compile(S1) || compile(S2)", {0, 1}}, {"compile(S3) || run VM", {2, 3}}, {"run VM || debug VM", {3, 4}},
-          {"scan || extract+apply macros", {5, 6}}, {"compile(S1) || compile(S1 shifted)", {0, 7}}, {"compile(S1) || compile(S2) || run VM", {0, 1, 3}}};
+          {"scan || extract+apply macros", {5, 6}}, {"compile(S1) || compile(S1 shifted)", {0, 7}}, {"compile(S4) || compile(S1)", {8, 0}}, {"compile(S1) || compile(S2) || run VM", {0, 1, 3}}};
 }
 static const Harness *g_h; static std::string g_results[sc::MAXT];
 static void body(int tid) { g_results[tid] = det::run_op(g_h->ops[tid], nullptr); }
